@@ -1078,3 +1078,8 @@ _HDR_NEW = _HDR_OLD + """        num_records = self._num_answers + self._num_aut
 V('c02-count-bound-refuses-exact-fit', 'C02', 'C02.FAITHFUL', INCF, _HDR_OLD, _HDR_NEW % '>=', names=['_read_header'])
 V('c02-count-bound-overestimates-entry', 'C02', 'C02.FAITHFUL', INCF, _HDR_OLD, (_HDR_NEW % '>').replace('* 11', '* 12'), names=['_read_header'])
 V('c02-twin-count-bound-strict', 'C02', 'C02.FAITHFUL', INCF, _HDR_OLD, _HDR_NEW % '>', expect='silent')
+
+# ---------------------------------------------------------------- round 10: event dispatcher iterates the live handler list
+SVC = '_services/__init__.py'
+V('c04-signal-fire-live-list', 'C04', 'C04.FLUSH', SVC, "        for h in self._handlers[:]:", "        for h in self._handlers:", names=['Signal.fire'])
+V('c04-twin-signal-fire-list-copy', 'C04', 'C04.FLUSH', SVC, "        for h in self._handlers[:]:", "        for h in list(self._handlers):", expect='silent')
